@@ -477,13 +477,16 @@ class Forcing(BaseForce):
         # Other forcing, read before the next velocity frame may open another file
         for name in self.extra_forcing:
             self.fields[name] = self._read_field(name, prestep)
-        self.fields["u_new"], self.fields["v_new"] = self._read_velocity(nextstep)
-        self.fields["dU"] = (self.fields["u_new"] - self.fields["u"]) / stepdiff0
-        self.fields["dV"] = (self.fields["v_new"] - self.fields["v"]) / stepdiff0
-
         if prestep == 0:
+            # Forcing frame at start time, update() reads the next frame at step 0
             self.fields["u_new"] = self.fields["u"].copy()
             self.fields["v_new"] = self.fields["v"].copy()
+            self.fields["dU"] = 0.0 * self.fields["u"]
+            self.fields["dV"] = 0.0 * self.fields["v"]
+        else:
+            self.fields["u_new"], self.fields["v_new"] = self._read_velocity(nextstep)
+            self.fields["dU"] = (self.fields["u_new"] - self.fields["u"]) / stepdiff0
+            self.fields["dV"] = (self.fields["v_new"] - self.fields["v"]) / stepdiff0
 
         # Interpolate to time step = -1
         self.fields["u"] = self.fields["u"] - (prestep + 1) * self.fields["dU"]
@@ -521,9 +524,8 @@ class Forcing(BaseForce):
             for name in self.extra_forcing:
                 self.fields[name] = self._read_field(name, step)
             # self.force_particles(X, Y)
-        else:
-            if step - 1 in self.steps:  # Need new fields
-                i = self.steps.index(step - 1)
+            i = self.steps.index(step)
+            if i + 1 < len(self.steps):  # Need new fields for the next interval
                 nextstep = self.steps[i + 1]
                 stepdiff = self.stepdiff[i]
                 self.fields["u_new"], self.fields["v_new"] = self._read_velocity(
@@ -541,8 +543,8 @@ class Forcing(BaseForce):
                 # if interpolate_extra_forcing_in_time:
                 #    for name in self.extra_forcing:
                 #        self["d" + name] = (self[name + "new"] - self[name]) / stepdiff
-
-            # "Ordinary" time step (including self.steps+1)
+        else:
+            # "Ordinary" time step
             if interpolate_velocity_in_time:
                 self.fields["u"] += self.fields["dU"]
                 self.fields["v"] += self.fields["dV"]
